@@ -243,10 +243,11 @@ void sim::engine_fault(RunCtx& cx) {
                 ok = false;
             }
             if (ok && pending.items() > 0 && w == 0) { V("I16/recovered-block-not-written", "write_block() after recovery returned 0 although records were pending"); ok = false; }
+            size_t close_ret = 0;
             if (ok) {
                 try {
-                    if (p.plan.sw.fd_output) { int fd = F.make_fd("recend"); p.ex->rotate_output(fd, false); }
-                    else p.ex->rotate_output(std::string("/sim/recend"), false);
+                    if (p.plan.sw.fd_output) { int fd = F.make_fd("recend"); close_ret = p.ex->rotate_output(fd, false); }
+                    else close_ret = p.ex->rotate_output(std::string("/sim/recend"), false);
                 } catch (std::exception& e) {
                     V("I16/close-of-recovery-output-throws", std::string("rotate_output closing the healthy output threw: ") + e.what());
                     ok = false;
@@ -261,7 +262,14 @@ void sim::engine_fault(RunCtx& cx) {
                 if (p.plan.sw.compression == 1) dec = model::gunzip_exact(raw, plain, err);
                 else if (p.plan.sw.compression == 2) dec = model::unxz_exact(raw, plain, err);
                 else plain = raw;
-                if (!dec) V("I16/recovered-file-invalid", rec_name + " is not one complete compressed stream: " + err);
+                // the recovery output is an output like any other: C02 / C13 / C10 hold for it too (API history with an exception in it)
+                auto also = [&](const std::string& d) {
+                    cx.violation("C02", "C02/I02/output-after-write-fault-invalid", d);
+                    cx.violation("C13", "C13/I12/output-after-write-fault-not-self-contained", d);
+                };
+                if (dec && w + close_ret != plain.size())
+                    cx.violation("C10", "C10/I17/byte-count-after-write-fault", rec_name + ": write_block + rotate_output returned " + std::to_string(w + close_ret) + " bytes for an output of " + std::to_string(plain.size()) + " uncompressed bytes");
+                if (!dec) { V("I16/recovered-file-invalid", rec_name + " is not one complete compressed stream: " + err); also(rec_name + ": " + err); }
                 else if (pending.items() == 0) {
                     if (!plain.empty()) V("I16/recovered-file-invalid", rec_name + " holds " + std::to_string(plain.size()) + " bytes although nothing was pending");
                     else cx.ctr->add("probe.recovery_with_nothing_pending");
@@ -289,6 +297,7 @@ void sim::engine_fault(RunCtx& cx) {
                         }
                     } catch (std::exception& e) {
                         V("I16/recovered-file-invalid", rec_name + ": " + e.what());
+                        also(rec_name + ": " + e.what());
                     }
                 }
             }
